@@ -1261,29 +1261,33 @@ Proof.
   intro H. destruct cx_accepted as [t2 H2].
   rewrite (H _ _ _ _ _ _ cx_p (HUser (bs "p")) [] [GET] _ cx_t1_registered) in H2.
   - discriminate H2.
-  - destruct cx_twin as [sp [sq [Hp [Hq [HF _]]]]]. now exists sp, sq.
+  - destruct cx_twin as [sp [sq [Hp [Hq [HF _]]]]]. exists sp, sq. split; [exact Hp|]. split; [exact Hq | exact HF].
   - intro E. vm_compute in E. discriminate E.
   - exact cx_twin.
 Qed.
 
 (* being reported as ambiguous does not make the new pattern a well-formed twin: the check runs
    before the pattern is parsed as a whole ("/{a}/{a}" has a duplicate name) *)
+Definition reg_or (t : tree) (p : bytes) (h : hterm) : tree :=
+  match tree_add t p h [] [GET] with Ok t' => t' | _ => t end.
+Definition dup_t1 : tree := reg_or (new_tree (bs "r") [] false) (bs "/{a}/{b}") (HUser (bs "q")).
 Example ambiguous_before_syntax :
-  exists t1, tree_add (new_tree (bs "r") [] false) (bs "/{a}/{b}") (HUser (bs "q")) [] [GET] = Ok t1 /\
-             tree_add t1 (bs "/{a}/{a}") (HUser (bs "p")) [] [GET] = Err (bs "ambiguous") /\
-             split [] (bs "/{a}/{a}") = Err (bs "dupname").
-Proof. eexists. split; [vm_compute; reflexivity|]. split; vm_compute; reflexivity. Qed.
+  tree_add (new_tree (bs "r") [] false) (bs "/{a}/{b}") (HUser (bs "q")) [] [GET] = Ok dup_t1 /\
+  tree_add dup_t1 (bs "/{a}/{a}") (HUser (bs "p")) [] [GET] = Err (bs "ambiguous") /\
+  split [] (bs "/{a}/{a}") = Err (bs "dupname").
+Proof. split; [vm_compute; reflexivity|]. split; vm_compute; reflexivity. Qed.
 
 (* with two routes the check is not complete: the label "{id}/a" shared by both routes is a cut
    piece whose suffix differs from the suffix of "{name}/author" *)
+Definition two_t1 : tree := reg_or (new_tree (bs "r") [] false) (bs "/posts/{id}/author") (HUser (bs "a")).
+Definition two_t2 : tree := reg_or two_t1 (bs "/posts/{id}/about") (HUser (bs "b")).
+Definition is_ok {T} (r : res T) : bool := match r with Ok _ => true | _ => false end.
+
 Example two_routes_twin_accepted :
-  exists t1 t2 t3,
-    tree_add (new_tree (bs "r") [] false) (bs "/posts/{id}/author") (HUser (bs "a")) [] [GET] = Ok t1 /\
-    tree_add t1 (bs "/posts/{id}/about") (HUser (bs "b")) [] [GET] = Ok t2 /\
-    tree_add t2 (bs "/posts/{name}/author") (HUser (bs "c")) [] [GET] = Ok t3.
-Proof.
-  eexists. eexists. eexists. split; [vm_compute; reflexivity|]. split; vm_compute; reflexivity.
-Qed.
+  tree_add (new_tree (bs "r") [] false) (bs "/posts/{id}/author") (HUser (bs "a")) [] [GET] = Ok two_t1 /\
+  tree_add two_t1 (bs "/posts/{id}/about") (HUser (bs "b")) [] [GET] = Ok two_t2 /\
+  is_ok (tree_add two_t2 (bs "/posts/{name}/author") (HUser (bs "c")) [] [GET]) = true.
+Proof. split; [vm_compute; reflexivity|]. split; vm_compute; reflexivity. Qed.
 
 (* ================================================================ Part F : trees *)
 
@@ -1404,8 +1408,6 @@ Definition ex_t1 : tree :=
   | Ok t => t
   | _ => new_tree (bs "r") [] false
   end.
-Definition is_ok {T} (r : res T) : bool := match r with Ok _ => true | _ => false end.
-
 Example ex_registered :
   tree_add (new_tree (bs "r") [] false) (bs "/posts/{id}/author") (HUser (bs "h")) [] [GET] = Ok ex_t1.
 Proof. vm_compute. reflexivity. Qed.
@@ -1428,11 +1430,15 @@ Qed.
 Example ex_canon : pat_canon [] (bs "/posts/{name}/author") /\ ~ pat_canon [] (bs "/posts/{name:}/author").
 Proof.
   split.
-  - intros sp H. vm_compute in H. injection H as <-. repeat constructor; intros _; reflexivity.
-  - intro H. destruct (split [] (bs "/posts/{name:}/author")) as [sp| | |] eqn:E; try (vm_compute in E; discriminate E).
-    specialize (H sp eq_refl). vm_compute in E. injection E as <-.
-    inversion H as [|x l _ H2]; subst. inversion H2 as [|x l H3 _]; subst.
-    specialize (H3 ltac:(discriminate)). vm_compute in H3. discriminate H3.
+  - intros sp H. vm_compute in H. injection H as <-.
+    constructor; [intro T; now elim T|]. constructor; [intros _; reflexivity|]. constructor.
+  - intro H.
+    assert (E : exists a b, split [] (bs "/posts/{name:}/author") = Ok [a; b] /\ styp b <> TString /\
+                            length (sval b) <> ambiguous_len b).
+    { eexists. eexists. split; [vm_compute; reflexivity|]. split; [discriminate|].
+      intro X. vm_compute in X. discriminate X. }
+    destruct E as [a [b [E [T L]]]]. specialize (H _ E).
+    apply Forall_inv_tail in H. apply Forall_inv in H. exact (L (H T)).
 Qed.
 (* the walk that the soundness theorem describes, on the rejected registration *)
 Example ex_walk_flag : exists q,
